@@ -1,6 +1,8 @@
 import BddVerif.Props.C16
 import BddVerif.Lemmas.AlgoEq2VarSetDriver
 import BddVerif.Lemmas.AlgoEq3NamesProtocol
+import BddVerif.Lemmas.AlgoEq4Names
+import BddVerif.Lemmas.AlgoEq4Display
 #print axioms B.Props.C16.valid_name_iff
 #print axioms B.Props.C16.forbidden_covers_grammar
 #print axioms B.Props.C16.name_index_bijection
@@ -43,3 +45,10 @@ import BddVerif.Lemmas.AlgoEq3NamesProtocol
 #print axioms B.AlgoEq3Names.protocol_panic_iff
 #print axioms B.AlgoEq3Names.protocol_eq_new
 #print axioms B.AlgoEq3Names.protocol_boundary
+#print axioms B.AlgoEq4.BddVariableSet_from_iter_eq_protocol
+#print axioms B.AlgoEq4.BddVariableSet_from_iter_eq_new
+#print axioms B.AlgoEq4.BddVariableSet_from_iter_panic_iff
+#print axioms B.AlgoEq4.from_iter_boundary
+#print axioms B.AlgoEq4.variable_name_assignment_getElem?
+#print axioms B.AlgoEq4.BddVariableSet_fmt_eq
+#print axioms B.Props.C16.sat_k_beyond_length
